@@ -76,6 +76,8 @@ SumDet(V, F, S) == IF S = {} THEN 0
                         IN Det3(V[F[i][1]], V[F[i][2]], V[F[i][3]]) + SumDet(V, F, S \ {i})
 Vol6(V, F, C) == SumDet(V, F, C)                    \* 6 x signed volume enclosed by the faces of C (divergence theorem)
 \* all faces point outwards: every (edge-connected) closed component is consistently oriented and encloses positive volume
+\* (for separate bodies; a component inside another one bounds a cavity and "outwards" would mean negative volume there -
+\*  the validator demands Outward only for meshes whose components are Separated)
 Outward(V, F) == \A C \in EdgeComponents(F) : Consistent(F, C) /\ Vol6(V, F, C) > 0
 \* reorientation may only change the winding of individual faces
 SameFaceSets(F1, F2) == Len(F1) = Len(F2) /\ \A i \in FaceIdx(F1) : VertsOf(F1[i]) = VertsOf(F2[i])
@@ -172,6 +174,9 @@ MinOf(S) == CHOOSE x \in S : \A y \in S : x <= y
 MaxOf(S) == CHOOSE x \in S : \A y \in S : x >= y
 BBoxLo(V, F, C) == <<MinOf(CoordsOf(V, F, C, 1)), MinOf(CoordsOf(V, F, C, 2)), MinOf(CoordsOf(V, F, C, 3))>>
 BBoxHi(V, F, C) == <<MaxOf(CoordsOf(V, F, C, 1)), MaxOf(CoordsOf(V, F, C, 2)), MaxOf(CoordsOf(V, F, C, 3))>>
+\* the bounding boxes of the components are pairwise disjoint: separate bodies, none inside a cavity of another
+Separated(V, F) == LET cs == EdgeComponents(F) IN
+   \A C, D \in cs : C # D => ~BoxOverlapClosed(BBoxLo(V, F, C), BBoxHi(V, F, C), BBoxLo(V, F, D), BBoxHi(V, F, D))
 \* the component C is the surface of its bounding box: all corners are box corners and it encloses the box volume
 IsBoxSurface(V, F, C) ==
   LET lo == BBoxLo(V, F, C)  hi == BBoxHi(V, F, C)
